@@ -54,6 +54,15 @@ theorem queueInitialBlanks_sameCore (s s' : P2P) (h : Nat) (actual : Frame)
   · exact foldlM_sameCore _ (fun s a s' hh => queueOutgoing_sameCore s s' h _ hh) _ s s' hq
   · have := pure_ok hq; subst this; exact SameCore.refl s
 
+theorem sendFrameToRemotes_sameCore (s s' : P2P) (now : Nat) (frame : Frame) (inputs : List (Nat × PlayerInput))
+    (h : s.sendFrameToRemotes now frame inputs = .ok s') : SameCore s s' := by
+  unfold sendFrameToRemotes at h
+  simp only at h
+  obtain ⟨r, _, h⟩ := bind_ok h
+  have := pure_ok h
+  subst this
+  exact ⟨rfl, rfl, rfl, rfl, rfl, rfl, rfl, rfl, rfl⟩
+
 theorem sendReadyLoop_sameCore (now : Nat) (lh : List Nat) : ∀ (fuel : Nat) (s s' : P2P),
     sendReadyOutgoingInputsToRemotes.loop now lh fuel s = .ok s' → SameCore s s' := by
   intro fuel
@@ -66,10 +75,8 @@ theorem sendReadyLoop_sameCore (now : Nat) (lh : List Nat) : ∀ (fuel : Nat) (s
     · cases h; exact SameCore.refl s
     · split at h
       · obtain ⟨inputs, _, h⟩ := bind_ok h
-        obtain ⟨r, _, h⟩ := bind_ok h
-        have h2 := ih _ s' h
-        exact ⟨h2.sync, h2.pred, h2.statuses, h2.sparse, h2.maxPrediction, h2.handles, h2.pending, h2.numPlayers,
-          h2.disconnectFrame⟩
+        obtain ⟨r, hsend, h⟩ := bind_ok h
+        exact (sendFrameToRemotes_sameCore _ _ _ _ _ hsend).trans (ih _ s' h)
       · obtain ⟨_, hi, _⟩ := bind_ok h
         cases hi
 
@@ -83,6 +90,14 @@ theorem sendReady_sameCore (s s' : P2P) (now : Nat) (h : s.sendReadyOutgoingInpu
     · have := pure_ok h; subst this; exact SameCore.refl s
     · exact sendReadyLoop_sameCore now _ _ s s' h
 
+theorem offerToSpectators_sameCore (s s' : P2P) (now : Nat) (inputMap : List (Nat × PlayerInput))
+    (h : s.offerToSpectators now inputMap = .ok s') : SameCore s s' := by
+  unfold offerToSpectators at h
+  obtain ⟨r, _, h⟩ := bind_ok h
+  have := pure_ok h
+  subst this
+  exact ⟨rfl, rfl, rfl, rfl, rfl, rfl, rfl, rfl, rfl⟩
+
 theorem sendConfirmedLoop_sameCore (now : Nat) (confirmed : Frame) : ∀ (fuel : Nat) (s s' : P2P),
     sendConfirmedInputsToSpectators.loop now confirmed fuel s = .ok s' → SameCore s s' := by
   intro fuel
@@ -95,10 +110,12 @@ theorem sendConfirmedLoop_sameCore (now : Nat) (confirmed : Frame) : ∀ (fuel :
     · obtain ⟨inputs, _, h⟩ := bind_ok h
       obtain ⟨_, h⟩ := ensure_bind_ok h
       obtain ⟨_, h⟩ := ensure_bind_ok h
-      obtain ⟨r, _, h⟩ := bind_ok h
+      obtain ⟨r, hoff, h⟩ := bind_ok h
+      have h1 := offerToSpectators_sameCore _ _ _ _ hoff
       have h2 := ih _ s' h
-      exact ⟨h2.sync, h2.pred, h2.statuses, h2.sparse, h2.maxPrediction, h2.handles, h2.pending, h2.numPlayers,
-        h2.disconnectFrame⟩
+      exact ⟨h2.sync.trans h1.sync, h2.pred.trans h1.pred, h2.statuses.trans h1.statuses, h2.sparse.trans h1.sparse,
+        h2.maxPrediction.trans h1.maxPrediction, h2.handles.trans h1.handles, h2.pending.trans h1.pending,
+        h2.numPlayers.trans h1.numPlayers, h2.disconnectFrame.trans h1.disconnectFrame⟩
     · cases h; exact SameCore.refl s
 
 theorem sendConfirmed_sameCore (s s' : P2P) (now : Nat) (confirmed : Frame)
